@@ -260,3 +260,31 @@ func runTPLGo(w *World, r *Result, rel string, maxRep int) (ndecl, ninst int) {
 	}
 	return
 }
+
+// runTPLBalance (TPL-4i): instantiated balance of the declaration templates of a non-Go generator.
+func runTPLBalance(w *World, r *Result, rel string, maxRep int) (ndecl, ninst int) {
+	lang := langOf(rel)
+	for _, d := range extractDecls(w, rel) {
+		pos := w.Pos(d.pos)
+		if why, bad := hasUnknown(d.content); bad {
+			Undecided("template of %s at %s has a hole the evaluator cannot classify: %s", d.label, pos, why)
+		}
+		ndecl++
+		insts := instances(d.content, maxRep)
+		failed := ""
+		for _, in := range insts {
+			ninst++
+			if why := balanceText(in.text, lang); why != "" {
+				failed = fmt.Sprintf("unrolling=%d choice=%d: %s", in.rep, in.choice, why)
+				break
+			}
+		}
+		cons := "declaration template at " + pos
+		if failed == "" {
+			r.ok("TPL-4", d.label, cons, pos, fmt.Sprintf("%d instantiations (repetitions 0..%d, every alternative chosen) are bracket/block balanced outside strings and comments", len(insts), maxRep), true)
+		} else {
+			r.bad("TPL-4", d.label, cons, pos, "an instantiation of the template is not balanced ("+failed+"): syntactically invalid "+strings.ToUpper(lang))
+		}
+	}
+	return
+}
